@@ -19,7 +19,7 @@ CHECKS = {
             REF, "DESIGN.md §3 C01"),
     "C02": ("exploration",
             "differential runtime oracle after every step of random transformation histories: generated code interpreted by the NM-TRAN reference vs in-memory model, plus write/read-back",
-            "After each of thousands of transformation steps the generated control stream is interpreted independently and compared with the in-memory model; the model is written, re-read and compared again, datasets cell by cell. Violations are attributed to listed mechanisms only by signature + delta check.",
+            "After each of thousands of transformation steps the generated control stream is interpreted independently and compared with the in-memory model; the model is written, re-read and compared again, datasets cell by cell. Violations are attributed to listed mechanisms by signature + delta check, or to the shortest failing sub-history when pharmpy contradicts itself on it (its own re-reading of the generated code differs from the in-memory model); a mismatch on which pharmpy agrees with itself and only the reference reading differs is inconclusive for this property and counted.",
             REF + " THETA/ETA/EPS aligned by position; compartments by name.", "DESIGN.md §3 C02"),
     "C10": ("exploration",
             "reference-interpreter oracle over generated straight-line programs (runtime monitoring of the real Statements methods)",
@@ -119,7 +119,7 @@ CHECKS.update({
             "Trusted: sys.addaudithook event stream as the set of mutation points (a probe measured ~30 events per store); 'committed' = the pharmpy call had returned before the fault (DESIGN.md A.5). Power-loss reordering of closed files and faults inside read paths are out of scope.", "DESIGN.md §3 C16, §2.5"),
 })
 
-READY = ["C16", "C09", "C12", "C15", "C01", "C03", "C04", "C06", "C07", "C08", "C05", "C10", "C11", "C13", "C14", "C17", "C18", "C19", "C20"]
+READY = ["C02", "C16", "C09", "C12", "C15", "C01", "C03", "C04", "C06", "C07", "C08", "C05", "C10", "C11", "C13", "C14", "C17", "C18", "C19", "C20"]
 
 NOT_BUILT = "check not built yet in this session (design in DESIGN.md); not claimed"
 
